@@ -444,3 +444,29 @@ def match_finding(findings, violation):
         if all(sig.get(k) == v for k, v in (f.get("signature") or {}).items()):
             return f
     return None
+
+
+class NamedImports:
+    """`from subprocess import Popen` (or `from io import open`) binds the real object in the importing module, where a
+    patch of the defining module's attribute does not reach.  This context manager re-binds every such name found in
+    the loaded modules of the package under test for the duration of a simulated call."""
+
+    def __init__(self, real, replacement, package="nbdime"):
+        self.real, self.replacement, self.package = real, replacement, package
+        self.patched = []
+
+    def __enter__(self):
+        for name, mod in list(sys.modules.items()):
+            if mod is None or not (name == self.package or name.startswith(self.package + ".")):
+                continue
+            for attr, val in list(vars(mod).items()):
+                if val is self.real:
+                    setattr(mod, attr, self.replacement)
+                    self.patched.append((mod, attr))
+        return self
+
+    def __exit__(self, *a):
+        for mod, attr in self.patched:
+            setattr(mod, attr, self.real)
+        self.patched = []
+        return False
